@@ -1,6 +1,6 @@
 """C20 — subsample / get_time_shift / get_Pk / get_Pnk / PGF helpers / estimate_R0 against the Lean models and specs."""
 from fractions import Fraction as F
-import numpy as np, networkx as nx
+import numpy as np, networkx as nx, networkx as nx
 import common, gen
 from common import fr, rs
 from sims import err_enum
@@ -68,11 +68,33 @@ def run(ctx):
         reqs.append(dict(op="timeshift", times=rep["times"], L=rep["L"], thr=rep["thr"]))
         metas.append(("timeshift", rep, impl))
     # ---- degree helpers
-    for _ in range(ctx.scale(150, 1000)):
+    def graphs():
         r = ctx.rng
-        G = gen.random_graph(r, 1, 10)
+        for _ in range(ctx.scale(150, 1000)):
+            yield gen.random_graph(r, 1, 10), "fresh"
+        # histories: ONE graph object edited in place between calls (degree-changing rewires that keep the node and
+        # edge counts, edge/node insertions and removals) — the helpers must describe the graph as it is now
+        for _ in range(ctx.scale(40, 300)):
+            G = gen.random_graph(r, 4, 10)
+            for step in range(4):
+                yield G, "history-step%d" % step
+                es, non = list(G.edges()), list(nx.non_edges(G))
+                kind = r.choice(["rewire", "rewire", "add-edge", "del-edge", "add-node"])
+                if kind == "rewire" and es and non:
+                    G.remove_edge(*r.choice(es))
+                    non = list(nx.non_edges(G))
+                    G.add_edge(*r.choice(non))
+                elif kind == "add-edge" and non:
+                    G.add_edge(*r.choice(non))
+                elif kind == "del-edge" and es:
+                    G.remove_edge(*r.choice(es))
+                else:
+                    G.add_node(max(G) + 1)
+    for G, tag in graphs():
+        r = ctx.rng
         if G.number_of_edges() == 0 and r.random() < 0.7:
             continue
+        ctx.count("degree:" + tag)
         idx = gen.index_of(G)
         adj = gen.adj_lists(G, idx)
         xs = [F(r.randrange(1, 17), 16) for _ in range(4)] + [F(1)]
@@ -141,6 +163,10 @@ def run(ctx):
                 bad.append("R0")
             # property-level facts on the implementation's numbers
             prop = []
+            degs = [len(a) for a in rep["adj"]]
+            hist = [F(sum(1 for d in degs if d == k), len(degs)) for k in range(max(degs) + 1)]
+            if len(impl["Pk"]) != len(hist) or not all(close(a, b) for a, b in zip(impl["Pk"], hist)):
+                prop.append("get_Pk differs from the degree histogram of the graph as it is now")
             if not close(sum(fr(x) for x in impl["Pk"]), 1):
                 prop.append("sum Pk != 1")
             for k1, row in enumerate(impl["Pnk"]):
